@@ -50,7 +50,7 @@ func lifetimeCase(e *ev.Env, w *witnesses, c *ev.Case, fixed *lifeFixed) {
 			case 0:
 				sc.Reqs = append(sc.Reqs, dup(gen.Pick(r, []string{"POST", "PUT", "PATCH", "DELETE"})))
 			case 1:
-				sc.Reqs = append(sc.Reqs, other("POST"))
+				sc.Reqs = append(sc.Reqs, keyedReq("POST", gen.Pick(r, nearKeys)))
 			case 2:
 				sc.Reqs = append(sc.Reqs, keyless(gen.Pick(r, []string{"POST", "GET"})))
 			default:
@@ -141,6 +141,9 @@ func lifetimeCase(e *ev.Env, w *witnesses, c *ev.Case, fixed *lifeFixed) {
 				if ex := r.execs[rq.Entries[0]]; ex.Exited && !ex.Fail {
 					last[rq.Key] = ex
 				}
+			} else if ex := r.foreign(rq); ex != nil && !rq.Errored && (ref == nil || rq.Resp.Get("X-Exec") != fmt.Sprint(ref.N)) {
+				add("other-key-affected|answered-from-record-of-another-key|"+keyRelation(rq.Key, ex.Key),
+					fmt.Sprintf("request %d with key %q was answered %d with the response of execution %d, which belongs to the DIFFERENT key %q", i, rq.Key, rq.Resp.Status, ex.N, ex.Key))
 			} else if ref == nil && !rq.Errored {
 				add("answer-without-execution", fmt.Sprintf("request %d answered %d without any execution for its key", i, rq.Resp.Status))
 			}
